@@ -182,8 +182,10 @@ fn limit_of(which: u8) -> BigInt {
 
 /// LIMIT + d + fraction, written at scale `s` (>= number of fraction digits) or with a negative scale
 fn near_limit_strategy() -> BoxedStrategy<Conv> {
-    (0..7u8, -2i64..=2, 0..7u8, 0usize..6, 0i64..5)
+    (0..7u8, -2i64..=2, 0..7u8, prop_oneof![3 => 0usize..6, 2 => 6usize..39], prop_oneof![3 => 0i64..5, 1 => 5i64..36])
         .prop_map(|(which, d, frac, nines, extra)| {
+            // the fraction is written with up to 40 digits in all (scale <= 40)
+            let extra = extra.min(39 - nines as i64).max(0);
             let base = limit_of(which) + d;
             // fraction numerator over 10^k
             let (fnum, k): (BigInt, u32) = match frac {
@@ -208,7 +210,7 @@ fn bigint_nines(n: usize) -> BigInt {
 
 /// small unscaled value pushed to (or past) a limit by a negative scale
 fn pushed_strategy() -> BoxedStrategy<Conv> {
-    (0..7u8, -2i64..=2, 1u32..=25, any::<bool>())
+    (0..7u8, -2i64..=2, 1u32..=40, any::<bool>())
         .prop_map(|(which, d, k, exact)| {
             let lim = limit_of(which) + d;
             let p = BigInt::from(10u8).pow(k);
